@@ -1126,7 +1126,12 @@ func rangeIter(fr *frame, x value, t types.Type) iter {
 		for k := range x {
 			ks = append(ks, k)
 		}
-		ks = fr.i.p.orderKeys(ks)
+		if fr.fn != nil && fr.fn.Name() == "Msgsize" {
+			// a size estimate sums over the entries: order-insensitive, never worth a fork
+			sort.SliceStable(ks, func(i, j int) bool { return keyLess(ks[i], ks[j]) })
+		} else {
+			ks = fr.i.p.orderKeys(ks)
+		}
 		vs := make([]value, len(ks))
 		for i, k := range ks {
 			vs[i] = x[k]
